@@ -130,7 +130,7 @@ var findOpts = []int64{0, 0, 1, 2, 3, 4, 8, 0x18, 0x28, 0x1c, 0x2c, 0x1a, 0x80, 
 
 func genScriptSel(t *rapid.T, roleStory int) ScriptSel {
 	s := ScriptSel{
-		Kind:  rapid.SampledFrom([]string{"kget", "kget", "kfind", "kfind", "kfind", "roles", "roles", "neo", "policy", "mgmt", "bundle"}).Draw(t, "skind"),
+		Kind:  rapid.SampledFrom([]string{"kget", "kget", "kfind", "kfind", "kfind", "roles", "rolebad", "neo", "policy", "mgmt", "bundle"}).Draw(t, "skind"),
 		C:     rapid.IntRange(0, 4).Draw(t, "sc"),
 		Party: rapid.IntRange(0, ck.NParties-1).Draw(t, "sparty"),
 	}
@@ -141,8 +141,8 @@ func genScriptSel(t *rapid.T, roleStory int) ScriptSel {
 		s.Key = genKeySel(t, "sk")
 		s.Cut = rapid.IntRange(0, 3).Draw(t, "scut")
 		s.Opts = rapid.SampledFrom(findOpts).Draw(t, "sopts")
-	case "roles":
-		s.Role = rapid.SampledFrom([]int{int(noderoles.StateValidator), int(noderoles.Oracle), int(noderoles.NeoFSAlphabet), int(noderoles.P2PNotary), roleStory, roleStory, roleStory, 1}).Draw(t, "srole")
+	case "roles", "rolebad":
+		s.Role = rapid.SampledFrom([]int{int(noderoles.StateValidator), int(noderoles.Oracle), int(noderoles.NeoFSAlphabet), int(noderoles.P2PNotary), roleStory, roleStory, roleStory}).Draw(t, "srole")
 	}
 	return s
 }
@@ -172,12 +172,15 @@ func genChurn(t *rapid.T, blocks []ck.BlockSpec, roleStory int) {
 	}
 	put := func(c int, k, v vt.Bytes) ck.Action { return ck.Action{Kind: "invoke", S: "put", A: c, K: k, V: v} }
 	del := func(c int, k vt.Bytes) ck.Action { return ck.Action{Kind: "invoke", S: "del", A: c, K: k} }
-	stories := rapid.IntRange(1, 5).Draw(t, "nstories")
+	stories := rapid.IntRange(2, 5).Draw(t, "nstories")
 	for s := 0; s < stories; s++ {
 		c := rapid.IntRange(0, 2).Draw(t, "story_c")
 		kind := rapid.SampledFrom([]string{"recreate", "recreate", "recreate", "samevalue", "empty", "prefixes", "destroy", "destroy", "multi", "roles", "roles", "serial"}).Draw(t, "story")
 		if s == 0 && rapid.Bool().Draw(t, "story0") {
 			kind = "recreate"
+		}
+		if s == 1 && rapid.Bool().Draw(t, "story1") {
+			kind = "roles"
 		}
 		switch kind {
 		case "recreate": // put, delete, put again (same or other value), possibly inside one block
@@ -361,7 +364,8 @@ func genCase(t *rapid.T) Case {
 			Max:       rapid.IntRange(1, 6).Draw(t, "fmax"),
 		})
 	}
-	for i := rapid.IntRange(2, 5).Draw(t, "nscripts"); i > 0; i-- {
+	c.Scripts = append(c.Scripts, ScriptSel{Kind: "roles", Role: roleStory})
+	for i := rapid.IntRange(1, 4).Draw(t, "nscripts"); i > 0; i-- {
 		c.Scripts = append(c.Scripts, genScriptSel(t, roleStory))
 	}
 	c.Page = rapid.IntRange(1, 5).Draw(t, "page")
@@ -577,17 +581,56 @@ func runIC(ic *interop.Context, script []byte) vmResult {
 		}
 	}
 	var sb strings.Builder
-	for _, it := range ic.VM.Estack().ToArray() {
-		b, jerr := stackitem.ToJSONWithTypes(it)
-		if jerr != nil {
-			fmt.Fprintf(&sb, "<%s:%v>", it.Type(), jerr)
-			continue
+	render := func(items []stackitem.Item) {
+		for _, it := range items {
+			b, jerr := stackitem.ToJSONWithTypes(it)
+			if jerr != nil {
+				fmt.Fprintf(&sb, "<%s:%v>", it.Type(), jerr)
+				continue
+			}
+			sb.Write(b)
+			sb.WriteByte(' ')
 		}
-		sb.Write(b)
-		sb.WriteByte(' ')
+	}
+	render(ic.VM.Estack().ToArray())
+	if err != nil {
+		// After a fault the current evaluation stack is the faulting context's one; the results of the calls
+		// completed before it are on the outer contexts' stacks. They are part of what was read, keep them.
+		for _, ctx := range ic.VM.Istack() {
+			sb.WriteString("| ")
+			render(ctx.Estack().ToArray())
+		}
 	}
 	r.stack = sb.String()
 	return r
+}
+
+func clipHex(b []byte) string {
+	if len(b) > 96 {
+		return fmt.Sprintf("%x...(%d bytes, full script in the replay case)", b[:96], len(b))
+	}
+	return fmt.Sprintf("%x", b)
+}
+
+// diffResults describes the first difference between a historic and a live result.
+func diffResults(hist, live vmResult) string {
+	if hist.state != live.state || hist.gas != live.gas {
+		return fmt.Sprintf("historic %s gas=%d fault=%q, live %s gas=%d fault=%q", hist.state, hist.gas, hist.fault, live.state, live.gas, live.fault)
+	}
+	a, b := hist.stack, live.stack
+	i := 0
+	for i < len(a) && i < len(b) && a[i] == b[i] {
+		i++
+	}
+	from := max(0, i-120)
+	clip := func(s string) string {
+		s = s[from:]
+		if len(s) > 400 {
+			s = s[:400] + "..."
+		}
+		return s
+	}
+	return fmt.Sprintf("same state %s and gas %d, stacks differ at byte %d: historic ...%s vs live ...%s", hist.state, hist.gas, i, clip(a), clip(b))
 }
 
 func same(a, b vmResult) bool { return a.state == b.state && a.gas == b.gas && a.stack == b.stack }
@@ -631,9 +674,15 @@ func buildScript(b *ck.Builder, sn *snap, s ScriptSel, p2psig bool) []byte {
 			}
 			call(h, "find", pre, s.Opts)
 		}
-	case "roles": // every index from 0 to height+1, then one beyond (must fault)
-		for i := int64(0); i <= int64(sn.h)+2; i++ {
+	case "roles": // every valid index: 0 .. height+1 (the persisting block counts)
+		for i := int64(0); i <= int64(sn.h)+1; i++ {
 			call(nativehashes.RoleManagement, "getDesignatedByRole", int64(s.Role), i)
+		}
+	case "rolebad": // index beyond height+1 or an invalid role: faults
+		if s.C%2 == 0 {
+			call(nativehashes.RoleManagement, "getDesignatedByRole", int64(s.Role), int64(sn.h)+2+int64(s.C))
+		} else {
+			call(nativehashes.RoleManagement, "getDesignatedByRole", int64(1), int64(sn.h))
 		}
 	case "neo":
 		neo := nativehashes.NeoToken
@@ -735,7 +784,7 @@ type env struct {
 	snaps map[uint32]*snap
 	recs  map[uint32][]recorded
 	// classification
-	nearMiss, historic, paged, nonRetained bool
+	nearMiss, historic, paged, nonRetained, rolesDeep bool
 }
 
 func nextContractID(bc *core.Blockchain) int64 {
@@ -912,6 +961,9 @@ func checkCase(c Case, o *vt.Obs) error {
 	}
 	if e.paged {
 		o.Label("paging-continued")
+	}
+	if e.rolesDeep {
+		o.Label("historic-role-lookup-below-latest-designation")
 	}
 	switch {
 	case c.Node.KeepOnlyLatest:
@@ -1228,8 +1280,11 @@ func (e *env) historicCalls(n *ck.Node, sn *snap, cur uint32, where string, stri
 			return fmt.Errorf("%s: GetTestHistoricVM(%d) refuses a retained height: %v", where, sn.h+1, err)
 		}
 		got := runIC(ic, r.script)
+		if r.sel.Kind == "roles" && len(sn.filter(trieKey(nativeids.RoleManagement, []byte{byte(r.sel.Role)}))) >= 2 {
+			e.rolesDeep = true
+		}
 		if !same(got, r.live) {
-			return fmt.Errorf("%s: historic invocation of script %x (%+v) returns\n  %s\nbut the live node at height %d returned\n  %s", where, r.script, r.sel, got, sn.h, r.live)
+			return fmt.Errorf("%s: historic invocation of script %s (%+v) differs from what the live node returned at height %d: %s", where, clipHex(r.script), r.sel, sn.h, diffResults(got, r.live))
 		}
 		e.historic = true
 	}
